@@ -2,6 +2,10 @@ import YarlProofs.C13
 /-!
 # C13 — Path operations compose like a path algebra   (audit layer)
 
+Continued in C13HeadlineMore.lean (theorems that need modules which import this file): the decoded accessors,
+children made from texts with '/', the `encoded=True` and n-ary `joinpath`, `parent` of the results,
+`with_suffix` → `suffix`, and `suffix` vs `suffixes` (C13More.lean).
+
 Property statement (verbatim):
 
 > raw_parts re-compose to raw_path, name is the last part and suffix/suffixes are the tail of name.
@@ -141,14 +145,15 @@ theorem C13_headline_child_name_fails_for_surrogate (e : Env) :
 /-- "joinpath(a, b) [and] joinpath(a).joinpath(b) … are equal" -/
 theorem C13_headline_joinpath_assoc (e : Env) (u : Url) (a b : Str) (v1 v2 w : Url)
     -- under an authority, no ".." segment in the old path or in `a`: otherwise `a` may climb above the
-    -- root and the two forms differ — `C13_headline_joinpath_assoc_fails_for` (weaker exact guard:
+    -- root and the two forms differ — `C13_headline_joinpath_assoc_fails_for` (F-C15-root-consumed; weaker exact guard:
     -- `hroot` of `C13_joinpath_assoc`)
     (hdd : u.netloc ≠ [] → dotdot ∉ splitOn 47 u.path ∧ dotdot ∉ splitOn 47 (q e Gen.PATH_QUOTER a)) :
     makeChild e u [a, b] false = .ok w → makeChild e u [a] false = .ok v1 →
     makeChild e v1 [b] false = .ok v2 → w = v2 :=
   C13_joinpath_assoc_no_dotdot e u a b v1 v2 w hdd
 
-/-- KNOWN FINDING: `URL("http://h").joinpath("..", ".//x")` is `http://h/x`, but
+/-- KNOWN FINDING (class F-C15-root-consumed: a ".." that climbs above the root consumes the root marker, so the
+    empty segment that follows is lost): `URL("http://h").joinpath("..", ".//x")` is `http://h/x`, but
     `URL("http://h").joinpath("..").joinpath(".//x")` is `http://h//x` -/
 theorem C13_headline_joinpath_assoc_fails_for (e : Env) :
     let u := fromParts "http".toStr "h".toStr [] [] []
@@ -161,7 +166,7 @@ theorem C13_headline_joinpath_assoc_fails_for (e : Env) :
 /-- "… and u / 'a/b' [is equal to joinpath(a, b)]" -/
 theorem C13_headline_truediv_slash (e : Env) (u : Url) (a b : Str) (w w' : Url) (ha : PyStr a) (hb : PyStr b)
     -- `a` is not empty and does not end with '/': `u / "x//b"` keeps the empty segment that
-    -- `joinpath("x/", "b")` drops (no `_counterexample` theorem for this; stated in the doc of `C13_truediv_slash`)
+    -- `joinpath("x/", "b")` drops — `C13_headline_truediv_slash_fails_for_double_slash` (C13HeadlineMore.lean)
     (hlast : (splitOn 47 (q e Gen.PATH_QUOTER a)).getLast? ≠ some []) :
     makeChild e u [a ++ 47 :: b] false = .ok w' → makeChild e u [a, b] false = .ok w → w' = w :=
   C13_truediv_slash e u a b w w' ha hb hlast
@@ -180,7 +185,9 @@ theorem C13_headline_with_name (e : Env) (u : Url) (nm : Str) (kq kf : Bool) (v 
     exactly as they were, never re-encoding them": all other RAW segments are identical, the new raw name
     is the old raw stem (old name minus old suffix, as raw text) followed by the quoted `x`.
     -- Appendix E: C13_with_suffix_raw ↦ this theorem (C13_with_suffix_raw_py); `rawStem v = rawStem u`
-    --   is expressed by the explicit new name; the conjunct `suffix v = x` is NOT proved (GAPS 3). -/
+    --   is expressed by the explicit new name; the conjunct `suffix v = x` is proved in C13HeadlineMore.lean
+    --   (`C13_headline_with_suffix_suffix`: for x = "." ++ y, y non-empty without '.'; it is FALSE for ".tar.gz":
+    --   `C13_headline_with_suffix_suffix_fails_for_multi_dot`). -/
 theorem C13_headline_with_suffix (e : Env) (u : Url) (x : Str) (kq kf : Bool) (v : Url) (n old : Str)
     (hxs : PyStr x) (hn : rawName u = .ok n) (ho : rawSuffix u = .ok old) :
     withSuffix e u x kq kf = .ok v →
@@ -201,28 +208,61 @@ example : ((makeChild e0 u1 ["c.txt".toStr] false).map rawParts).toOption =
 
 /-
 GAPS:
- 1. Everything is stated on RAW (encoded) accessors.  The decoded `name`, `suffix`, `suffixes`, `parts`
-    are `UNQUOTER` images of the raw ones by definition; "has name s" / "with_name(n) has name n" in
-    DECODED form (unquote (quote n) = n) is C06's read-back, not composed here.
- 2. "u / s has name s": proved for ONE segment s that is a Python string, non-empty, without '/', without
-    lone surrogates, not "."/".." in quoted form, on a URL whose old path has no dot segments (under an
-    authority) and is empty-or-rooted.  Not covered: s containing '/' (name = last segment of s), the
-    `encoded=True` variant of joinpath, an old path with dot segments (encoded=True URLs).
- 3. with_suffix: "replaces only the suffix" — proved: other segments and the raw stem are unchanged and
-    the new name is stem ++ quote(x).  NOT proved: that `suffix` of the result IS x (needs: quote(x) starts
-    with '.', has no other '.', and the stem is non-empty — follows from the argument checks but no
-    theorem), nor the decoded-level statement "the rest of the decoded name" (only raw).
- 4. with_name: "the same parent" is equality of parent PARTS; `parent` (the URL operation) of the result
-    equals `parent u` is not stated.  Likewise for u / s: `(u / s).parent == u` up to trailing slash is
-    only stated on parts.
- 5. joinpath(a, b) = joinpath(a).joinpath(b): two arguments only (no n-ary statement); guarded by "no '..'
-    segment" (exact guard `hroot` in C13_joinpath_assoc); FALSE when `a` climbs above the root
-    (C13_headline_joinpath_assoc_fails_for).  u / 'a/b' = joinpath(a, b): needs `a` not ending in '/'
-    (and non-empty); the failing case `u / "x//b"` has no counterexample theorem.
+ 1. CLOSED by C13_decoded_accessors, C13_child_name_decoded, C13_with_name_decoded, C13_with_suffix_decoded,
+    C13_suffix_last_decoded (C13More.lean), see C13_headline_decoded_accessors, C13_headline_child_name_decoded,
+    C13_headline_with_name_decoded, C13_headline_with_suffix_decoded, C13_headline_suffix_last_decoded
+    (C13HeadlineMore.lean).  Proved: `parts`, `name`, `suffix`, `suffixes` are the raw accessors decoded
+    element-wise by the plain UNQUOTER (= the specification decoder of C06Spec); `u / s` has DECODED name `s` and
+    decoded parent parts = `u.parts` without a trailing empty segment (guards of C13_headline_child_name, "not a
+    dot segment" stated on `s` itself); `with_name(n)` has decoded name `n` and the same decoded parent parts;
+    `with_suffix(x)` turns the decoded name `dstem ++ suffix` into `dstem ++ x` and keeps all other decoded parts.
+    All for Python strings WITHOUT lone surrogates (a lone surrogate is dropped by the quoter and does not read
+    back: C13_headline_child_name_fails_for_surrogate).
+ 2. PARTLY CLOSED by C13_child_slash, C13_joinpath_parts, C13_joinpath_encoded_name (C13More.lean), see
+    C13_headline_child_slash, C13_headline_joinpath_parts, C13_headline_joinpath_encoded_name
+    (C13HeadlineMore.lean).  Proved: for `s` containing '/' the new parts are the quoted segments of `s`, the name
+    is the (quoted, and decoded: the plain) last segment of `s`, the parent parts are the old parts without a
+    trailing empty one plus the other segments; the same for any number of arguments in either `encoded` mode, in
+    terms of `argSegs` (with `encoded=True` the name is the last segment of the last argument, verbatim).
+    Remains open: under an authority all of this is guarded by "no dot segment in the old path and in the
+    arguments" (when `_make_child` normalises, name and parent are those of the normalised path: C15 says what
+    that path is, no C13 statement about name/parent then), and by "no rootless path next to an authority";
+    a single argument "." / ".." is excluded by the property text itself.
+ 3. CLOSED by C13_with_suffix_suffix, C13_with_suffix_suffix_general, C13_with_suffix_decoded (C13More.lean), see
+    C13_headline_with_suffix_suffix, C13_headline_with_suffix_suffix_general, C13_headline_with_suffix_decoded
+    (C13HeadlineMore.lean).  Proved: for x = "." ++ y with y non-empty, without '.' and without lone surrogates,
+    `raw_suffix` of the result is quote(x) and `suffix` is x; for every accepted x the raw suffix of the result is
+    the LAST dotted piece of quote(x) ("" if quote(x) ends with '.'; the suffix of the old stem if x = ""); the
+    decoded-level "rest of the decoded name" statement is the one quoted in item 1.  "suffix of the result is x" is
+    FALSE for x with two dots (".tar.gz" gives ".gz"): C13_headline_with_suffix_suffix_fails_for_multi_dot.
+ 4. CLOSED by C13_with_name_parent, C13_child_parent, C13_child_parent_root, C13_child_slash_parent
+    (C13More.lean), see C13_headline_with_name_parent (+ C13_headline_with_name_parent_root_instances),
+    C13_headline_child_parent, C13_headline_child_parent_root, C13_headline_child_slash_parent
+    (C13HeadlineMore.lean).  Proved: `with_name(n).parent == u.parent` as Python `==` (`eqKey`) for every path
+    without an authority and every empty-or-rooted path under one, and as equality of all stored parts except
+    under an authority with an empty or one-segment path (`http://h` vs `http://h/`: equal, stored differently);
+    `(u / s).parent` is `u` without query, fragment and ONE trailing slash, exactly — since fix 264b96e
+    (`URL("/name").parent` is `URL("/")`, no longer `URL("")`) also on `URL("/")`: `(URL("/") / s).parent` is
+    `URL("/")`; `(u / "a/b").parent` is `u / "a"`, with one corner new since that fix
+    (C13_headline_child_slash_parent_fails_for_surrogate: empty URL reference and `a` a lone surrogate).
+    The guards of item 2 (no dot segments under an authority, no rootless path next to an authority) apply to the
+    `/` statements.
+ 5. PARTLY CLOSED by C13_joinpath_nary, C13_truediv_double_slash_counterexample (C13More.lean), see
+    C13_headline_joinpath_nary, C13_headline_truediv_slash_fails_for_double_slash (C13HeadlineMore.lean).
+    Proved: joinpath(a₁, …, aₙ) = joinpath(a₁).joinpath(a₂)…joinpath(aₙ) as values (errors included) for n ≥ 1 in
+    either `encoded` mode, guarded by "under an authority no '..' segment in the old path or in any argument but
+    the last"; the failing case `u / "x//b"` ≠ joinpath("x/", "b") now has its counterexample theorem.
+    Remains as before: the guard is needed — FALSE when an argument climbs above the root
+    (C13_headline_joinpath_assoc_fails_for; exact two-argument guard `hroot` in C13_joinpath_assoc);
+    u / 'a/b' = joinpath(a, b) needs `a` non-empty and not ending in '/'.
  6. "u / s equals u.joinpath(s)" is true by construction of the model (same function); the Python-level
     fact that `__truediv__` and `joinpath` share `_make_child` is an assumption of the model wiring
     (Main.lean), checked by the differential harness only.
- 7. suffixes: only "the suffixes concatenate to a tail of the name"; that each begins with '.' and that
-    `suffix` is the last of `suffixes` are not stated.
+ 7. CLOSED by C13_suffixes_spec, C13_suffix_last_decoded (C13More.lean), see C13_headline_suffixes_spec,
+    C13_headline_suffix_last_decoded (C13HeadlineMore.lean).  Proved for every URL: each of `raw_suffixes` is '.'
+    followed by a dot-free piece; when there are any, `raw_suffix` is the last of them; when there are none,
+    `raw_suffix` is "" provided the name does not start with ".."; the same on the decoded accessors.  For a name
+    starting with ".." it is FALSE (`URL("http://h/..a")`: suffix ".a", suffixes ()):
+    C13_headline_suffix_last_of_suffixes_fails_for_dotdot_name.
 -/
 end Yarl
